@@ -41,11 +41,13 @@ class TreeGen:
     def __init__(self, rng, **o):
         self.rng = rng
         self.o = dict(size=12, unary=UNARY_EXACT, binary=BINARY_EXACT, p_minmax=0.3, nvars=0,
-                      p_share=0.3, remap=0.0, apply=0.0, consts="mixed", p_const=0.25, p_unary=0.3)
+                      p_share=0.3, remap=0.0, apply=0.0, consts="mixed", p_const=0.25, p_unary=0.3,
+                      max_xsize=None)
         self.o.update(o)
         self.lines = []
         self.next = 0
         self.kind = {}      # id -> description tuple
+        self.xsize = {}
         self.vars = []
         self.pool = []
         self.hist = {}
@@ -60,6 +62,8 @@ class TreeGen:
         i = self.next
         self.next += 1
         self.kind[i] = desc
+        # size of the node when the DAG is expanded into a tree (the Lean model works on trees)
+        self.xsize[i] = 1 + sum(self.xsize.get(d, 0) for d in desc[1:] if isinstance(d, int))
         self.lines.append("n %d %s" % (i, " ".join(str(d) for d in desc)))
         self.hist[desc[0] if desc[0] not in ("un", "bin") else desc[1]] = \
             self.hist.get(desc[0] if desc[0] not in ("un", "bin") else desc[1], 0) + 1
@@ -79,9 +83,15 @@ class TreeGen:
         r = self.rng
         if r.random() < self.o["p_const"]:
             return self.const()
-        if r.random() < self.o["p_share"] or len(self.pool) < 6:
-            return r.choice(self.pool)
-        return r.choice(self.pool[-5:])
+        lim = self.o["max_xsize"]
+        for _ in range(8):
+            if r.random() < self.o["p_share"] or len(self.pool) < 6:
+                c = r.choice(self.pool)
+            else:
+                c = r.choice(self.pool[-5:])
+            if lim is None or self.xsize[c] <= lim:
+                return c
+        return r.choice(self.pool[:3])
 
     def step(self):
         r = self.rng
